@@ -731,7 +731,13 @@ fn build_matcher_tree(
 
                 i += 1;
                 let matcher = UserMatcher::from_user_name(user)
-                    .or_else(|| Some(UserMatcher::from_uid(user.parse::<u32>().ok()?)))
+                    .or_else(|| {
+                        // a numeric id is digits only: "+5" is neither a name nor an id
+                        if !user.bytes().all(|b| b.is_ascii_digit()) {
+                            return None;
+                        }
+                        Some(UserMatcher::from_uid(user.parse::<u32>().ok()?))
+                    })
                     .ok_or_else(|| format!("{user} is not the name of a known user"))?;
                 Some(matcher.into_box())
             }
@@ -760,7 +766,13 @@ fn build_matcher_tree(
 
                 i += 1;
                 let matcher = GroupMatcher::from_group_name(group)
-                    .or_else(|| Some(GroupMatcher::from_gid(group.parse::<u32>().ok()?)))
+                    .or_else(|| {
+                        // a numeric id is digits only: "+5" is neither a name nor an id
+                        if !group.bytes().all(|b| b.is_ascii_digit()) {
+                            return None;
+                        }
+                        Some(GroupMatcher::from_gid(group.parse::<u32>().ok()?))
+                    })
                     .ok_or_else(|| format!("{group} is not the name of an existing group"))?;
                 Some(matcher.into_box())
             }
